@@ -1444,7 +1444,7 @@ func checkC25(r *mon.Run) {
 			defer wg.Done()
 			for idx := range ch {
 				spec := genFixture(r.Rand(fmt.Sprint("fx", idx)), idx)
-				runFixture(r, &spec, idx < 4)
+				runFixture(r, &spec, idx == 0)
 			}
 		}()
 	}
